@@ -2,7 +2,7 @@
 import importlib.util, os
 from ..core import Facts, Report, site, VERIF
 from ..extract import extract
-from ..paths import PathExec, Unrec
+from ..defrag_sem import SemExec, semantic, Unrec
 
 P = "tls_records_parser::TlsRecordsParser::"
 
@@ -20,9 +20,9 @@ def run(tier, repo):
     F = Facts(facts, info)
     rp.configs.append("default")
     S = load_spec()
-    rp.rule("PATH", "every entry->exit path of the four TlsRecordsParser methods (loop-free; enumerated from the HIR with the parser outcome split into Ok / Incomplete / Error|Failure x Complete|other) "
-                    "has exactly the guards, ordered effects on self and exit class that spec/defrag.py lists, and every listed summary occurs")
-    rp.rule("CONSTANTS", "MAX_RECORD_DATA = 10 MiB; the buffer and type fields are private; Default is derived (reset gives a fresh parser)")
+    rp.rule("PATH", "every entry->exit path of the four TlsRecordsParser methods (loop-free; evaluated by an abstract interpreter over a symbolic state and record, helpers and delegations inlined, the parser outcome "
+                    "split into Ok / Incomplete / Error|Failure x Complete|other) has exactly the decisions, parser invocations, final state and exit class that spec/defrag.py lists, and every listed summary occurs")
+    rp.rule("CONSTANTS", "MAX_RECORD_DATA = 10 MiB; the buffer and type fields are private and touched only by the four methods and their private helpers")
     total = 0
     for m, specfn in S.METHODS.items():
         f = F.fn(P + m)
@@ -30,27 +30,29 @@ def run(tier, repo):
             continue
         rp.functions.add(P + m)
         try:
-            got = PathExec(F, f).run()
+            raw = SemExec(F, f).run()
         except Unrec as u:
             rp.fail("PATH", m + "/unrecognised", site(f), "construct the path analysis cannot read: %s" % u)
             continue
-        want = specfn()
+        got = semantic(raw)
+        want = set(specfn())
         total += len(got)
-        gs = set(got)
-        ws = set(want)
-        for p in got:
-            key = "%s/%s" % (m, "/".join(p[0]) or "-")
-            if p in ws:
-                rp.ok("PATH", site(f), key, "%s -> %s" % (list(p[1]), p[2]))
-            else:
-                # find the reference summary with the same guards, if any
-                ref = [w for w in want if w[0] == p[0]]
-                rp.fail("PATH", key, site(f), "path [%s] does %s and exits %s" % (", ".join(p[0]), list(p[1]), p[2]),
-                        expected=("%s -> %s" % (list(ref[0][1]), ref[0][2])) if ref else "no such path in the reference protocol", found="%s -> %s" % (list(p[1]), p[2]))
+        by_guards = {}
         for w in want:
-            if w not in gs and not any(g[0] == w[0] for g in got):
-                rp.fail("PATH", "%s/%s/missing" % (m, "/".join(w[0]) or "-"), site(f), "reference path [%s] -> %s, %s does not exist in the code" % (", ".join(w[0]), list(w[1]), w[2]))
-    rp.floor("paths", total, 12)
+            by_guards[w[0]] = w
+        for p in sorted(got, key=str):
+            key = "%s/%s" % (m, "/".join(p[0]) or "-")
+            if p in want:
+                rp.ok("PATH", site(f), key, "parses %s; type -> %s; buffer -> %s; exit %s" % (list(p[1]), p[2], "+".join(p[3]) or "empty", p[4]))
+            else:
+                ref = by_guards.get(p[0])
+                rp.fail("PATH", key, site(f), "path [%s]: parses %s, leaves type %s and buffer %s, exits %s" % (", ".join(p[0]), list(p[1]), p[2], "+".join(p[3]) or "empty", p[4]),
+                        expected=("parses %s; type %s; buffer %s; exit %s" % (list(ref[1]), ref[2], "+".join(ref[3]) or "empty", ref[4])) if ref else "no such path in the reference protocol",
+                        found="parses %s; type %s; buffer %s; exit %s" % (list(p[1]), p[2], "+".join(p[3]) or "empty", p[4]))
+        got_guards = set(p[0] for p in got)
+        for w in sorted(want, key=str):
+            if w not in got and w[0] not in got_guards:
+                rp.fail("PATH", "%s/%s/missing" % (m, "/".join(w[0]) or "-"), site(f), "reference path [%s] (exit %s) does not exist in the code" % (", ".join(w[0]), w[4]))
     # the one-shot payload parser must signal "fragment" by Incomplete / ErrorKind::Complete and by nothing else:
     # in the arms of the fragmentable content types the first thing that can fail on a short input is a streaming read
     # under complete(); a rejection that depends only on the declared record length must not come before those reads
@@ -95,8 +97,14 @@ def run(tier, repo):
                  "defragmenter state is not exactly the two private fields (buffer, current type): outside code could alter it", found=sorted((k, v_["public"]) for k, v_ in fields.items()))
         rp.check(fields.get("record_defrag_buffer", {}).get("ty", "").startswith("alloc::vec::Vec<u8") and "Option<tls_record::TlsRecordType>" in fields.get("current_record_type", {}).get("ty", ""), "CONSTANTS", "state-types", site(a),
                  "state field types changed", found={k: v_["ty"] for k, v_ in fields.items()})
-    d = [i for i in F.impls if i.get("trait_path") == "core::default::Default" and i["self"] == "tls_records_parser::TlsRecordsParser"]
-    rp.check(len(d) == 1 and d[0]["derived"], "CONSTANTS", "derived-default", "src/tls_records_parser.rs", "Default for TlsRecordsParser is not the derived one (reset must give an empty buffer and no current type)")
+    # Default::default() (derived or written by hand) must be the fresh parser: evaluated, not matched by shape
+    try:
+        dflt = SemExec(F, F.fn(P + "reset") or {"params": [], "hir": None}).call_default({}, __import__("analysis.defrag_sem", fromlist=["St"]).St(), 0)
+        okd = all(v[0] == "parserval" and v[1] == ("buf", ()) and v[2] == ("opt", None) for v, _, _ in dflt) and bool(dflt)
+        rp.check(okd, "CONSTANTS", "default-is-fresh", "src/tls_records_parser.rs", "Default for TlsRecordsParser is not the fresh parser (empty buffer, no current type)", found=str([v for v, _, _ in dflt])[:200],
+                 why_ok="Default::default() = empty buffer, no current type")
+    except Unrec as u:
+        rp.fail("CONSTANTS", "default-is-fresh", "src/tls_records_parser.rs", "Default for TlsRecordsParser cannot be read: %s" % u)
     # only these methods may touch the state: who-may-write
     from ..core import walk, strip_ref
     writers = set()
@@ -105,7 +113,10 @@ def run(tier, repo):
             if e.get("k") == "field" and e["name"] in ("record_defrag_buffer", "current_record_type") and e.get("of", "").endswith("tls_records_parser::TlsRecordsParser"):
                 writers.add(f["path"].split("::{closure")[0])
     allowed = {P + m for m in S.METHODS} | {"<tls_records_parser::TlsRecordsParser as core::fmt::Debug>::fmt", "<tls_records_parser::TlsRecordsParser as core::default::Default>::default"}
-    rp.check(writers <= allowed, "CONSTANTS", "who-may-touch-state", "src/tls_records_parser.rs", "other functions access the defragmenter state: %s" % sorted(writers - allowed), why_ok="state is touched only by %s" % sorted(w.split("::")[-1] for w in writers))
+    # private helpers of the four methods are covered by the path analysis (they are inlined); an exported function
+    # that touches the state would be a fifth way to drive the state machine
+    extra = sorted(w for w in writers - allowed if (F.fn(w) or {}).get("exported", True))
+    rp.check(not extra, "CONSTANTS", "who-may-touch-state", "src/tls_records_parser.rs", "other exported functions access the defragmenter state: %s" % extra, why_ok="state is touched only by %s" % sorted(w.split("::")[-1] for w in writers))
     rp.assume("the one-shot parser parse_tls_record_with_header is the function checked by C03; nom error kinds Complete/Incomplete as produced by complete()/streaming parsers")
     rp.assume("append-only buffer + these path summaries imply: buffer = data_1 ++ ... ++ data_k and the result is the one-shot parser applied to it; that the one-shot parser's verdict on a concatenation is what the property expects for every split is nom semantics (not decided)")
     return rp.finish(level="other", exhaustive=True, explanation="Exhaustive path enumeration (the methods are loop-free): %d entry->exit paths abstracted to (guards, ordered effects, exit class) and compared as a set with the reference protocol." % total)
